@@ -24,6 +24,8 @@ TInit == l = 1 /\ Start([kind |-> "global", numTune |-> 0, earlyEnd |-> 0, final
 TrReset ==
     /\ IsEvent("reset")
     /\ R.earlyEnd >= 0 /\ R.finalWindow >= 0 /\ R.finalWindow <= R.numTune
+    \* the constants the strategy works with are the configured ones (recomputed harness-side from the settings)
+    /\ R.constok
     /\ LET p == [kind |-> R.kind, numTune |-> R.numTune, earlyEnd |-> R.earlyEnd,
                  finalWindow |-> R.finalWindow, earlyFreq |-> R.earlyFreq,
                  mainFreq |-> R.mainFreq, updFreq |-> R.updFreq, gn |-> R.gn, gd |-> R.gd]
